@@ -217,6 +217,16 @@ class FlowEmit:
 
     def mcall(self, e, env):
         recv, name, args = e[1], e[2], e[3]
+        # X.iter().all(|x| e) / X.iter().any(|x| e)
+        if name in ("all", "any") and len(args) == 1 and args[0][0] == "closure" and len(args[0][1]) == 1 and isinstance(args[0][1][0], str) \
+                and recv[0] == "mcall" and recv[2] == "iter" and not recv[3]:
+            lst, lty_ = self.ex(recv[1], env)
+            if not lty_.startswith("L("): die("all/any over a non-list")
+            cl = args[0]
+            benv = dict(env); benv[cl[1][0]] = (self.lname(cl[1][0]), lty_[2:-1], False)
+            b, bty = self.ex(cl[2], benv)
+            if bty != "B": die("all/any with a non-bool closure")
+            return "(List.%s %s (fun %s => %s))" % (name, lst, self.lname(cl[1][0]), b), "B"
         # (lo..=hi).contains(&x) / (lo..hi).contains(&x)
         r_ = recv[1] if recv[0] == "paren" else recv
         if name == "contains" and len(args) == 1 and r_[0] in ("range", "rangei") and r_[1] is not None and r_[2] is not None:
